@@ -111,6 +111,15 @@ EQS == {Op("and", <<e1, e2, o>>) : e1 \in EqAtoms, e2 \in EqAtoms, o \in Others}
        \cup {Op("and", <<e1, e2, e3, o>>) : e1 \in {Op("equals", <<X, Y>>), Op("equals", <<Y, X>>), Op("equals", <<X, IntC(0)>>)},
                                              e2 \in EqAtoms, e3 \in EqAtoms, o \in {Op("le", <<X, Zz>>)}}
        \cup {Op("and", <<e1, o>>) : e1 \in EqAtoms, o \in Others} \cup EqAtoms
+       \* a constant joins a class that already has a leader (r = 2 after / before q = r): the constant must lead, also
+       \* where only constants are allowed (the exponent of pow)
+       \cup {Op("and", es \o <<o>>) :
+                es \in {<<Op("equals", <<Rr, RealC(<<2, 1>>)>>), Op("equals", <<Uu, Rr>>)>>,
+                        <<Op("equals", <<Uu, Rr>>), Op("equals", <<Rr, RealC(<<2, 1>>)>>)>>,
+                        <<Op("equals", <<Uu, Rr>>), Op("equals", <<RealC(<<2, 1>>), Uu>>)>>},
+                o \in {Op("lt", <<RealC(<<1, 1>>), Op("pow", <<Uu, RealC(<<2, 1>>)>>)>>),
+                       Op("lt", <<RealC(<<1, 1>>), Op("times", <<RealC(<<2, 1>>), Uu>>)>>),
+                       Op("lt", <<Op("pow", <<Rr, RealC(<<2, 1>>)>>), Op("plus", <<Uu, RealC(<<2, 1>>)>>)>>)}}
        \* equalities next to quantifiers that BIND one side of the equality (propagating the other side must not capture)
        \cup {Op("and", <<e1, Quant(qk, <<BVar(v, TInt)>>, body)>>) :
                 e1 \in {Op("equals", <<X, Y>>), Op("equals", <<Y, X>>), Op("equals", <<Zz, X>>), Op("equals", <<Y, IntC(1)>>)},
